@@ -1,8 +1,8 @@
 package harness
 
 import (
-	"context"
 	"bytes"
+	"context"
 	"runtime"
 	"runtime/debug"
 	"testing"
